@@ -750,3 +750,77 @@ pub fn f_cross_br<'a>(a: S<'a, u32>) {
     let r = a.location().source_iter(q!(vec![7u32, 8u32]));
     a.cross_product(r).embedded_output("out");
 }
+
+// ------------------------------------------------------------------ round 5: stateful operators on
+// Atomic-located streams (across_ticks / atomic()..end_atomic() / all_ticks_atomic()): emit_core picks
+// the persistence lifetime from the location kind, and LocationId::Atomic counts as top level
+// ('static), so position / order sensitive state must survive the tick boundary.
+
+pub fn x_across_enumerate<'a>(a: S<'a, u32>) {
+    b1(a).1
+        .across_ticks(|s| s.enumerate())
+        .all_ticks()
+        .embedded_output("out");
+}
+
+pub fn x_across_reduce<'a>(a: S<'a, u32>) {
+    b1(a).1
+        .across_ticks(|s| s.reduce(q!(|acc, x| *acc = (*acc * 3 + x) % 1009)))
+        .all_ticks()
+        .embedded_output("out");
+}
+
+pub fn x_across_limit<'a>(a: S<'a, u32>) {
+    b1(a).1
+        .map(q!(|x| x * 2 + 1))
+        .across_ticks(|s| s.limit(q!(2)))
+        .all_ticks()
+        .embedded_output("out");
+}
+
+pub fn x_across_fold_keyed<'a>(a: S<'a, KV>) {
+    b1(a).1
+        .across_ticks(|s| {
+            s.into_keyed()
+                .fold(q!(|| 1u32), q!(|acc, v| *acc = (*acc * 2 + v) % 1009))
+        })
+        .entries()
+        .all_ticks()
+        .assume_ordering::<TotalOrder>(nondet!(/** observation only */))
+        .embedded_output("out");
+}
+
+pub fn x_across_reduce_keyed<'a>(a: S<'a, KV>) {
+    b1(a).1
+        .across_ticks(|s| s.into_keyed().reduce(q!(|acc, v| *acc = (*acc * 3 + v) % 1009)))
+        .entries()
+        .all_ticks()
+        .assume_ordering::<TotalOrder>(nondet!(/** observation only */))
+        .embedded_output("out");
+}
+
+pub fn x_across_enumerate_unique<'a>(a: S<'a, u32>) {
+    b1(a).1
+        .across_ticks(|s| s.unique().enumerate().map(q!(|(i, x)| (x, i as u32))))
+        .all_ticks()
+        .embedded_output("out");
+}
+
+/// a top-level stream taken through an atomic region
+pub fn x_atomic_enumerate<'a>(a: S<'a, u32>) {
+    a.filter(q!(|x| *x % 2 == 1))
+        .atomic()
+        .enumerate()
+        .end_atomic()
+        .embedded_output("out");
+}
+
+/// batches re-assembled into an Atomic stream with all_ticks_atomic
+pub fn x_all_ticks_atomic_enumerate<'a>(a: S<'a, u32>) {
+    b1(a).1
+        .all_ticks_atomic()
+        .unique()
+        .enumerate()
+        .end_atomic()
+        .embedded_output("out");
+}
